@@ -26,7 +26,7 @@ class EmceeSMC(NumpySMCSampler):
         checkpoint_file_path: str | None = None,
         resume_from: str | bytes | dict | None = None,
     ):
-        self.sampler_kwargs = sampler_kwargs or {}
+        self.sampler_kwargs = dict(sampler_kwargs or {})
         self.sampler_kwargs.setdefault("nsteps", 5 * self.dims)
         self.sampler_kwargs.setdefault("progress", True)
         self.emcee_moves = self.sampler_kwargs.pop("moves", None)
